@@ -11,7 +11,7 @@ pub fn gen_case(rng: &mut Rng) -> Vec<String> {
         let h = rng.below(8) as usize;
         let g = rng.below(8) as usize;
         let l = match rng.below(20) {
-            0 | 1 => { let k = rng.below(6) as usize; sizes[h] = k; format!("vinit v{h}{}", (0..k).map(|_| format!(" {}", rng.below(100))).collect::<String>()) }
+            0 | 1 => { let k = rng.below(6) as usize; sizes[h] = k; format!("{} v{h}{}", if rng.chance(1, 2) { "vinit" } else { "vrange" }, (0..k).map(|_| format!(" {}", rng.below(100))).collect::<String>()) }
             2 | 3 => { sizes[h] = sizes[g]; format!("vcopy v{h} v{g}") }
             4 | 5 => { sizes[h] = sizes[g]; format!("vassign v{h} v{g}") }
             6 => { sizes.swap(h, g); format!("vmove v{h} v{g}") }
